@@ -310,6 +310,8 @@ def run_impl(case):
         return kw
     # an entry naming one axis may be spelled as a plain string
     axis = [a[0] if case.get("axis_str") and len(a) == 1 else tuple(a) for a in case["axis"]]
+    if case.get("axis_str") and len(axis) == 1 and isinstance(axis[0], str) and case.get("axis_whole", True):
+        axis = axis[0]          # the whole argument as one plain string: it names that one axis
     try:
         mode = case["mode"]
         if mode == "apply":
